@@ -2,6 +2,16 @@
 """Write /verif/seeded/<name>/meta.json for every seeded change from its confirmation.txt."""
 import json, os, re, glob
 NEEDS = {
+ "C01b_par_solve_chunks_exact": "parallel flavour (mrhs_parallel), S >= 9 and S not a multiple of 8: the trailing S mod 8 coefficient columns stay zero",
+ "C02b_best_fit_from_unweighting_residuals": "FitResult::best_fit with at least one weight exactly 0: (0-0)/0 = NaN rows",
+ "C03b_nonadjacent_shared_parameter_run": "a parameter shared by basis functions that are not adjacent in basis order (f0(tau), f1(omega), f2(tau)): later nonzero derivative columns dropped",
+ "C04b_noimprovementpossible_counts_as_success": "with_solver with ftol and xtol below machine epsilon so that the optimizer ends with NoImprovementPossible: fit returns Ok",
+ "C07b_parallel_rhs_blocks_unweighted_derivative": "parallel flavour, S >= 8, S > P and non-unit weights: Jacobian blocks lack the weights",
+ "C09b_parallel_eval_failure_keeps_cache": "parallel flavour only: model.set_params succeeds, the following eval() fails, and a valid cache exists from earlier parameters: stale state kept",
+ "C10b_incremental_phi_cache_first_function_only": "builder-made model with a parameter shared by >= 2 functions, update differing from the previous alpha in exactly that coordinate: later functions keep their old column",
+ "C11b_completion_order_dependent_columns": "schedule dependent: >= 2 worker threads and P >= 3; Jacobian columns assembled in completion order (insert at min(k, len))",
+ "C15b_case_insensitive_derivative_names": "a derivative name equal to a function parameter ignoring ASCII case but different as a string (e.g. model [k, K])",
+ "C16b_derivative_key_via_sorted_names": "a function of arity >= 2 whose parameter list is not in lexicographic order: derivative stored under another parameter's index",
  "C01_relative_svd_threshold": "a singular value of W*Phi between eps and eps*sigma_max: a user-chosen epsilon, nearly collinear basis functions, sigma_max != 1",
  "C02_residual_from_projector": "a singular value <= epsilon at the alpha in effect (collinear basis functions or a user threshold): residuals then subtract the projection onto truncated directions too",
  "C03_derivative_errors_dropped_by_or": "a model whose eval_partial_deriv(k) fails while eval() succeeds; Result::or instead of and keeps Ok",
